@@ -97,14 +97,14 @@ func PackValues(format string, values []rt.Value, budget uint64) (string, uint64
 			_ = p.align(0) &&
 				p.mustGetOptSize() &&
 				p.nextStringValue() &&
-				p.writeStr(p.optSize)
+				p.writeStr(true, p.optSize)
 		case 'z':
 			if p.align(0) && p.nextStringValue() {
 				if strings.IndexByte(p.strVal, 0) >= 0 {
 					p.err = errStringContainsZeros
 				} else {
 
-					_ = p.writeStr(0) &&
+					_ = p.writeStr(false, 0) &&
 						p.writeByte(0)
 				}
 			}
@@ -113,7 +113,7 @@ func PackValues(format string, values []rt.Value, budget uint64) (string, uint64
 				p.align(p.optSize) &&
 				p.nextStringValue() &&
 				p.packUint() &&
-				p.writeStr(0)
+				p.writeStr(false, 0)
 			if p.err == errOutOfBounds {
 				p.err = errStringDoesNotFit
 			}
@@ -229,21 +229,24 @@ func (p *packer) consumeBudget(amount uint64) bool {
 	return true
 }
 
-func (p *packer) writeStr(maxLen uint) bool {
-	diff := 0
-	if maxLen > 0 {
-		diff = int(maxLen) - len(p.strVal)
-	}
-	if diff < 0 {
-		p.err = errStringLongerThanFormat
-		return false
+// writeStr writes the current string value.  If fixed is true the string is
+// written in a field of exactly size bytes (option "c"): it is padded with
+// zeros and it is an error if it is longer, also when size is 0.
+func (p *packer) writeStr(fixed bool, size uint) bool {
+	var diff uint
+	if fixed {
+		if uint(len(p.strVal)) > size {
+			p.err = errStringLongerThanFormat
+			return false
+		}
+		diff = size - uint(len(p.strVal))
 	}
 	if !p.consumeBudget(uint64(len(p.strVal))) {
 		return false
 	}
 	p.w.Write([]byte(p.strVal))
 	if diff > 0 {
-		return p.fill(uint(diff), 0)
+		return p.fill(diff, 0)
 	}
 	return true
 }
